@@ -59,4 +59,74 @@ theorem run_inv (s : State) (ops : List Op) (h : Inv s) (hw : NoWrap s ops) :
 theorem init_inv (l : Nat) (h : l < W) : Inv (init l) := by
   simp [Inv, init, outstanding, h]
 
+/-! ## set_limits bookkeeping -/
+
+def DecInv (d : Dec) : Prop := Inv d.tr ∧ d.tr.limit = d.current
+
+theorem step_limit_of_not_resize (s : State) (op : Op)
+    (h : (∀ n, op ≠ .expand n) ∧ (∀ n, op ≠ .shrink n)) : (step s op).1.limit = s.limit := by
+  cases op with
+  | alloc c sz =>
+    simp only [step]
+    split
+    · rfl
+    · split <;> rfl
+  | drop i => simp only [step]; split <;> rfl
+  | expand n => exact absurd rfl (h.1 n)
+  | shrink n => exact absurd rfl (h.2 n)
+
+theorem setLimits_inv (d : Dec) (new : Nat) (hn : new < W) (h : DecInv d) :
+    DecInv (setLimits d new).1 := by
+  obtain ⟨hi, hl⟩ := h
+  unfold setLimits
+  by_cases hgt : new > d.current
+  · simp only [hgt, if_true]
+    refine ⟨step_inv d.tr (.expand (new - d.current)) hi (by simp only; omega), ?_⟩
+    simp only [step]; omega
+  · simp only [hgt, if_false]
+    by_cases hfit : d.current - new ≤ d.tr.left
+    · have e : step d.tr (.shrink (d.current - new)) =
+          ({ d.tr with left := d.tr.left - (d.current - new), limit := d.tr.limit - (d.current - new) }, .ok) := by
+        simp [step, hfit]
+      rw [e]
+      refine ⟨?_, ?_⟩
+      · have := step_inv d.tr (.shrink (d.current - new)) hi trivial
+        rw [e] at this; exact this
+      · simp only; omega
+    · have e : step d.tr (.shrink (d.current - new)) = (d.tr, .oom (d.current - new)) := by
+        simp [step, hfit]
+      rw [e]; exact ⟨hi, hl⟩
+
+theorem decStep_inv (d : Dec) (op : DecOp) (hw : op.wf) (h : DecInv d) : DecInv (decStep d op) := by
+  cases op with
+  | setLimits new => exact setLimits_inv d new hw h
+  | tracker op =>
+    obtain ⟨hi, hl⟩ := h
+    cases op with
+    | expand n => exact absurd hw (by simp [DecOp.wf])
+    | shrink n => exact absurd hw (by simp [DecOp.wf])
+    | alloc c sz =>
+      refine ⟨step_inv d.tr _ hi trivial, ?_⟩
+      simp only [decStep]
+      have h1 : ∀ n, Op.alloc c sz ≠ .expand n := fun n h => by cases h
+      have h2 : ∀ n, Op.alloc c sz ≠ .shrink n := fun n h => by cases h
+      rw [step_limit_of_not_resize _ _ ⟨h1, h2⟩]; exact hl
+    | drop i =>
+      refine ⟨step_inv d.tr _ hi trivial, ?_⟩
+      simp only [decStep]
+      have h1 : ∀ n, Op.drop i ≠ .expand n := fun n h => by cases h
+      have h2 : ∀ n, Op.drop i ≠ .shrink n := fun n h => by cases h
+      rw [step_limit_of_not_resize _ _ ⟨h1, h2⟩]; exact hl
+
+theorem decRun_inv (d : Dec) (ops : List DecOp) (hw : ∀ op ∈ ops, op.wf) (h : DecInv d) :
+    DecInv (decRun d ops) := by
+  induction ops generalizing d with
+  | nil => simpa [decRun]
+  | cons op ops ih =>
+    simp only [decRun, List.foldl]
+    exact ih _ (fun o ho => hw o (by simp [ho])) (decStep_inv d op (hw op (by simp)) h)
+
+theorem decInit_inv : DecInv Dec.init := by
+  refine ⟨init_inv (W - 1) (by simp [W]), rfl⟩
+
 end Jxl.Alloc
